@@ -69,6 +69,7 @@ class FnSpec:
         self.opens = []
         self.vis = None
         self.sigsuffix = None
+        self.hoisted = False
 
 _clause_start = re.compile(r"^(\s*)(\[[^\]]*\]\s*)?(.*)$")
 
@@ -115,6 +116,8 @@ def parse_vc(ident, text):
                 fs.vis = val; sec = None
             elif key == "sigsuffix":
                 fs.sigsuffix = val; sec = None
+            elif key == "hoisted_items":
+                fs.hoisted = val in ("yes", "true"); sec = None
             elif key == "rewrite":
                 # rewrite: /regex/ => replacement
                 m = re.match(r"/(.*)/\s*=>\s*(.*)$", val)
@@ -454,6 +457,17 @@ def add_fn(unit, fs):
     sigt = toks[:body_open]
     body = toks[body_open + 1:body_close]
     tail = toks[body_close + 1:]
+    if fs.hoisted:
+        # T15: items nested in the body (verified separately at module level) are removed from the body text
+        nested = [x for x in rsscan.split_items(body) if x.kind in ("struct", "enum", "impl", "fn", "trait")]
+        drop = set()
+        for x in nested:
+            for t in x.toks:
+                drop.add(id(t))
+        if not nested:
+            raise ScanError("%s: hoisted_items given but the body has no nested items" % fs.ident)
+        body = [(Tok("ws", "\n" * t.s.count("\n"), t.pos, t.line) if id(t) in drop else t) for t in body]
+        unit.log.append("T15 %s: %d nested item(s) removed from the body (verified at module level): %s" % (where, len(nested), ", ".join(x.kind + " " + x.name[:40] for x in nested)))
     # --- signature: T3 named return, T10 mut self
     sg = _sigidx(sigt)
     # leading whitespace/comments trimmed
